@@ -2068,6 +2068,9 @@ class SQLModel:
             terms_strs = [self.enc_term_(k, terms=terms) for k in columns]
             if len(terms_strs) < 1:
                 terms_strs = ["*"]
+        elif (columns is not None) and (len(columns) > 0):
+            # a step with no terms of its own (order_rows) still lists exactly the requested columns
+            terms_strs = [self.quote_identifier(k) for k in columns]
         sql_start = "SELECT"
         if (
             sql_format_options.annotate
